@@ -238,6 +238,16 @@ def threads_part(mod, spec, ctx, overrides=None):
         T.replay(ctx, label, make_jobs, overrides, sig, case)
         return
     st = T.explore(ctx, label, make_jobs, spec['bound'], spec['cap'], sig, case)
+    if spec.get('pick', 0) == 0:
+        # and one grid object written by two threads at once (readers share nothing but the grid)
+        import hszinc
+        from vf import hs as _hs
+        mode = {'zinc': hszinc.MODE_ZINC, 'json': hszinc.MODE_JSON}[mod.FMT]
+
+        def same_jobs():
+            g = _hs.to_grid(ns[0])
+            return [lambda: hszinc.dump(g, mode=mode), lambda: hszinc.dump([g, g], mode=mode)]
+        T.explore(ctx, '%s-same-grid' % mod.FMT, same_jobs, spec['bound'], max(100, spec['cap'] // 2), sig, case)
     if st:
         ctx.sample({'thread_jobs': label, 'grids': [D.enc(n) for n in ns][:2], 'schedules': st['schedules'],
                     'distinct_interleavings': len(st['fingerprints'])})
